@@ -418,7 +418,7 @@ func c13Giant(c *mc.Ctx) {
 }
 
 func c13BigBitmap(l, pat int) []uint64 {
-	w := make([]uint64, l)
+	w := gen.DirtyU64(make([]uint64, l), 3)
 	switch pat {
 	case 9:
 		// sparse, 2^25 words
